@@ -277,14 +277,22 @@ class TwoThreads(Harness):
 
     def native(self, inputs, label):
         # a schedule cannot be forced natively without hooks: stress the same pair of operations on two real threads
-        return [{'mode': 'alloc_stress', 'op1': self.ops[0], 'op2': self.ops[1], 'iters': 400000}]
+        # second run: a limit that the two workers' blocks (24 and 40 bytes) cannot both fit under
+        return [{'mode': 'alloc_stress', 'op1': self.ops[0], 'op2': self.ops[1], 'iters': 400000},
+                {'mode': 'alloc_stress', 'op1': self.ops[0], 'op2': self.ops[1], 'iters': 400000, 'limit': 63}]
 
     def judge(self, inputs, label, obs):
-        o = obs[0]
-        if o.get('outcome') != 'ok':
-            return True, 'stress run crashed: %s' % o
-        bad = o['used_at_quiescence'] != 0 or o['bad_peak_observations'] > 0 or o['peak'] < 0
-        return bad, 'two-thread stress (%s || %s, 400k iterations each): %s' % (self.ops[0], self.ops[1], o)
+        bad = []
+        for o in obs:
+            if o.get('outcome') != 'ok':
+                return True, 'stress run crashed: %s' % o
+            if o['used_at_quiescence'] != 0:
+                bad.append('usage %d at quiescence with nothing live' % o['used_at_quiescence'])
+            if o['bad_peak_observations'] > 0:
+                bad.append('%d observations of a peak below a live block' % o['bad_peak_observations'])
+            if o.get('over_limit_observations', 0) > 0:
+                bad.append('%d observations of more than the limit (%d bytes) granted at once' % (o['over_limit_observations'], o['limit']))
+        return bool(bad), 'two-thread stress (%s || %s, 400k iterations each): %s' % (self.ops[0], self.ops[1], '; '.join(bad) or obs)
 
 
 def harnesses(tier):
